@@ -721,7 +721,7 @@ func (c *Client) onPUBREC() error {
 	}
 	c.orderedTxs.Received++
 
-	err = c.write(nil, c.pendingAck)
+	err = c.writeAck(c.pendingAck)
 	if err != nil {
 		return err // keeps pendingAck to retry
 	}
